@@ -18,16 +18,16 @@ REQUIRED = ['getNBest_shape', 'plurality_shape', 'quotaSelector_refusals', 'ha_s
             # Lemmas/ShapeRankedT2.lean
             'kemeny_shape', 'kemeny_refusals', 'rankedpairs_shape_partial', 'rankedpairs_shape_le_two', 'rankedpairs_refusals',
             'rankedpairs_refusals_all', 'rankedpairs_short_witness', 'seatless_shape', 'seatless_smith_nonempty', 'benham_shape',
-            'benham_refusals_partial', 'benham_refusals_witness', 'tideman_shape', 'tideman_refusals_partial', 'tideman_no_votes',
-            'tideman_refusals_witness', 'benham_lone_elected', 'tidemanN_shape', 'tidemanN_refusals_partial', 'tidemanN_refusals_witness',
+            'benham_refusals', 'benham_refusals_witness', 'tideman_shape', 'tideman_refusals', 'tideman_no_votes',
+            'tideman_refusals_witness', 'benham_lone_elected', 'tidemanN_shape', 'tidemanN_refusals', 'tidemanN_refusals_witness',
             'bucklin_shape_partial', 'bucklin_whole_shape_partial', 'bucklin_refusals',
             'bucklin_whole_refusals', 'bucklin_answers', 'bucklin_whole_refusals_all', 'bucklin_short_witness',
             # Lemmas/ShapeCardinal.lean, ShapeApprovalPAV.lean
             'score_shape', 'score_refusals', 'score_total', 'score_refusals_partial', 'score_refusals_witness', 'score_total_trunc',
             'spav_shape', 'spav_refusals', 'pav_shape', 'pavStep_shape', 'pav_refusals', 'pavStep_refusals', 'mj_shape', 'mjPlus_total',
             'mjPlus_refusals', 'mjDefault_refusals_partial', 'mj_refusals_partial', 'mj_refusals_witness', 'star_shape', 'star_refusals',
-            'star_total', 'star_refusals_partial', 'allocated_shape', 'allocated_shape_tie_fixed', 'allocated_refusals_partial',
-            'allocated_refusals_witness', 'mem_scoreCands', 'scoreCands_nodup',
+            'star_total', 'star_refusals_partial', 'allocated_shape', 'allocated_shape_tie_fixed', 'allocated_refusals',
+            'allocated_refusals_fixed', 'mem_scoreCands', 'scoreCands_nodup',
             # Lemmas/ShapeQuotaSubtract.lean
             'qd_subtract_shape', 'qd_subtract_refusals', 'lr_subtract_shape', 'lr_subtract_refusals', 'qd_subtract_ties',
             # Lemmas/ShapeSequential.lean (models VotelibModel/ShapeSequential.lean)
@@ -52,7 +52,7 @@ PROVED_FAMILIES = ['plurality', 'ha_d_hondt', 'ha_sainte_lague', 'ha_imperiali',
                    'rel_threshold_5pc', 'rel_threshold_5pc_decimal', 'rel_threshold_5pc_float', 'rel_threshold_third', 'abs_threshold_2', 'openlist_jump_5pc', 'openlist_quota_precedence',
                    'openlist_tiebreaker_plurality', 'threshold_alternative', 'aux_input_order',
                    'lr_imperiali_subtract', 'lr_hagenbach_bischoff_subtract', 'qd_imperiali_subtract',
-                   'baldwin', 'approval_pav', 'approval_spav', 'score_mean', 'score_sum0', 'score_median', 'majority_judgment_plus', 'star']
+                   'baldwin', 'benham', 'tideman_alternative', 'allocated_score_hare', 'approval_pav', 'approval_spav', 'score_mean', 'score_sum0', 'score_median', 'majority_judgment_plus', 'star']
 NAMES = Names(prefix='cand')
 POSITIONAL_CFG = {'positional_borda': {'s': 'Borda', 'base': 1}, 'positional_borda0': {'s': 'Borda', 'base': 0},
               'positional_dowdall': {'s': 'Dowdall'}, 'positional_geometric': {'s': 'Geometric', 'base': 2},
@@ -190,15 +190,9 @@ PARTIAL_FAMILIES = {
        for k in ('winvotes', 'margins', 'pwo')},
     'majority_judgment': 'mjDefault_refusals (only declared refusals) is FALSE of the code (StatisticsError: mj_refusals_witness, open finding '
                          'C08-mj-statistics-error); proved: mj_shape (full), mjDefault_refusals_partial (VotingSystemError or StatisticsError)',
-    'allocated_score_hare': 'allocated_refusals (only declared refusals) is FALSE of the code (allocated_refusals_witness: ValueError / IndexError when '
-                            'the ballots run out; open findings); proved: allocated_shape (FULL since fix 4ae6629), allocated_refusals_partial',
-    'benham': 'benham_refusals is FALSE of the code (IndexError on an elimination tie: benham_refusals_witness, open finding '
-              'C05-benham-elimination-tie-crash); proved for one seat: benham_shape (a lone candidate included, fix 1230cf6), '
-              'benham_refusals_partial (IndexError only, needs >= 2 candidates); n_seats >= 2 raises AssertionError (observation)',
-    'tideman_alternative': 'tideman_refusals / tidemanN_refusals are FALSE of the code (IndexError on an elimination tie, KeyError on a tied tier: '
-                           'tideman_refusals_witness, tidemanN_refusals_witness, open findings C05-tideman-elimination-tie-crash, '
-                           'C05-tideman-tie-keyerror); proved: tideman_shape, tidemanN_shape (exactly n distinct candidates for every n, FULL), '
-                           'tideman_refusals_partial, tidemanN_refusals_partial (IndexError / KeyError only)',
+    'score_median_trunc_quarter': 'score_refusals needs truncation = 0: with truncation the code raises StatisticsError / ZeroDivisionError '
+                                  '(score_refusals_witness, open finding C08-score-truncation-empty); proved: score_shape (full), '
+                                  'score_refusals_partial, score_total_trunc (no error when the cutoff leaves every candidate a grade)',
     **{k: 'bucklin_n_shape (exactly n places) is FALSE of the code (bucklin_n_short_witness / bucklin_short_witness: fewer than n candidates ever '
           'pass the majority quota; open finding C08-preference-addition-short-list); proved for every n, every coefficient function, with and '
           'without splitting of shared ranks: bucklin_n_shape_partial (everything but the length), bucklin_n_one_tie (a short answer has no tie), '
@@ -601,10 +595,9 @@ LEVEL_TEXT = ('For every modelled evaluator family the result-shape schema (exac
               'contested seat and larger than those seats; positive integer awards to parties of the votes summing to the seats to fill; distinct candidates for '
               'seat-less selectors) and the refusal clause (the only error outcomes are VotingSystemError / NotImplementedError) are Lean theorems for ALL inputs '
               'under explicit decidable well-formedness: plurality, quota selector, highest averages, largest remainder and quota distributor (all three '
-              'over-award policies), STV selector and distributor, Copeland (both), Schulze, minimax (three scorers), Kemeny-Young, positional voting (six scorers), '
+              'over-award policies), STV selector and distributor, Copeland (both), Schulze, minimax (three scorers), Kemeny-Young, Benham (one seat), Tideman alternative (n seats), allocated score, positional voting (six scorers), '
               'AV, SAV, PAV, SPAV, score voting, majority judgment (shape; refusals for tie_breaking=plus), STAR, Baldwin, thresholds, open list, list tie-breaker, '
               'Condorcet winner / Smith / Schwartz sets, InputOrderSelector. Where the code violates the schema the strongest true part is proved (_partial) and the '
-              'violation is a kernel-checked witness + open finding: ranked pairs and PreferenceAddition (short lists), allocated score (tie listed once, ValueError / '
-              'IndexError), majority judgment default tie-break (StatisticsError), Benham / Tideman (IndexError / KeyError), score truncation (StatisticsError).')
+              'violation is a kernel-checked witness + open finding: ranked pairs and PreferenceAddition (short lists), majority judgment default tie-break (StatisticsError), score truncation (StatisticsError).')
 LEVEL_NOTE = ('Trusted: Lean kernel + standard axioms; the models are tied to the code by the correspondence run of this check (and of the owning properties). '
               'Partial: 4 random/md5-based auxiliary selectors are decided by the oracle only; wrappers and nested-vote evaluators are exercised by C14/C07/C18.')
